@@ -77,6 +77,30 @@ def assigned_names(stmts):
     return out
 
 
+def mutated_names(stmts):
+    """local names whose array object may be mutated in place by the statements"""
+    out = set()
+    for s in stmts:
+        for n in ast.walk(s):
+            if isinstance(n, ast.AugAssign):
+                t = n.target
+                if isinstance(t, ast.Name):
+                    out.add(t.id)
+                elif isinstance(t, ast.Subscript) and isinstance(t.value, ast.Name):
+                    out.add(t.value.id)
+            elif isinstance(n, ast.Assign):
+                for t in n.targets:
+                    if isinstance(t, ast.Subscript) and isinstance(t.value, ast.Name):
+                        out.add(t.value.id)
+            elif isinstance(n, ast.Call):
+                if isinstance(n.func, ast.Attribute) and isinstance(n.func.value, ast.Name) and n.func.attr in ("fill", "sort", "resize", "put", "itemset"):
+                    out.add(n.func.value.id)
+                for kw in n.keywords:
+                    if kw.arg == "out" and isinstance(kw.value, ast.Name):
+                        out.add(kw.value.id)
+    return out
+
+
 class PathResult:
     def __init__(self, cond, env, heap, logs, outcome):
         self.cond = cond
@@ -273,8 +297,9 @@ class Summariser:
                 ph_s[name] = p
                 envd[name] = p
         seen_arr = {}
+        mut = mutated_names(self.node.body)
         for name, v in env0.items():
-            if isinstance(v, LArr):
+            if isinstance(v, LArr) and name in mut:
                 if id(v) in seen_arr:
                     raise Unsupported("local arrays %s and %s alias each other at a summarised loop (line %d)" % (seen_arr[id(v)], name, self.line))
                 seen_arr[id(v)] = name
@@ -324,6 +349,10 @@ class Summariser:
             if name in ph_s:
                 p = ph_s[name]
                 if any(is_arr(o) for _, o in outs):
+                    # x = 0; for ...: x += array.  For an empty sequence the loop does nothing (x stays a scalar);
+                    # otherwise x becomes an array of the summand's length after the first iteration
+                    if not it.branch(self.n > 0):
+                        return
                     self._promote_scalar_to_array(name, env0, k, heap0)
                     return self.run()  # restart with the promoted accumulator
                 numeric = all(o is not None and (is_z3(o) and z3.is_arith(o) or isinstance(o, (int, float))) for _, o in outs)
@@ -350,7 +379,7 @@ class Summariser:
                     continue
                 self.heap_logs.append((p.cond, e))
             for name, v in p.env.items():
-                if name in env0 and isinstance(env0[name], LArr):
+                if name in ph_a and isinstance(env0[name], LArr):
                     self.larr_final.setdefault(name, []).append((p.cond, v.get))
         self.k0 = k
         self.ph = ph_a
@@ -447,6 +476,10 @@ class Summariser:
             o = pth.env.get(name)
             if is_arr(o):
                 ln = it.arr_len(o)
+                if is_z3(ln):
+                    # the summand's length for the first element (all elements must agree: shape obligations in the body)
+                    ln = simp(z3.substitute(ln, (k, z3.IntVal(0))))
+                    it.register_index(z3.IntVal(0))
                 break
         it.assumptions_log.add("scalar accumulator promoted to an array of the summand's length (for an empty sequence numpy keeps the scalar; equivalent under broadcasting at the use sites)")
         self.env[name] = LArr(ln, lambda i, v0=v0: v0)
